@@ -478,6 +478,17 @@ impl<'a> Meta<'a> {
     const PREFIX: &'static str = "@@REDO:";
     const SEP: &'static str = "@@ ";
 
+    /// Construct an arbitrary record (verification hook).
+    #[cfg(feature = "verif")]
+    pub fn verif_new(kind: &'a str, pid: pid_t, timestamp: f64, text: &'a str) -> Meta<'a> {
+        Meta {
+            kind,
+            pid,
+            timestamp,
+            text,
+        }
+    }
+
     /// Parses a log-line in-place.
     pub fn parse(s: &'a str) -> Result<Meta<'a>, MetaParseError> {
         if !s.starts_with(Meta::PREFIX) {
